@@ -7,6 +7,16 @@ Part 1 (this section): `lag`, `lead`, `diff`, `dlog` of `fsic/functions.py`.  Al
 EVERY length (including 0), EVERY integer shift (zero, negative, `|p| ≥ n`), every fill value and every element
 type (subtraction and `log` are parameters).  Part 2 (further down) covers `eval()`: the index rewriting of
 `_resolve_expression_indexes`, and the namespace assembly.
+
+What is NOT here (stated so that the theorem list is not read as more than it is):
+* `diff_spec` / `diff_spec_partial` are for `d ≥ 1`.  For `d = 0` the property's formula is FALSE of the code
+  (`diff_zero`, `diff_full_false_at_witness`: open known finding `diff-d0`); for `d < 0` the code raises
+  NotImplementedError (`diff_neg`) and the property is silent.
+* "`eval(expr)` returns what Python/NumPy computes for `expr`" is NOT modelled: CPython's evaluator is outside the
+  model.  The theorems cover what fsic itself does around the call — which text is handed to Python (index
+  rewriting), which object every name is bound to (namespace precedence, current store after any history), which
+  error an undefined name becomes, and that the package helper table is not written.  The value of the evaluated
+  expression is compared with NumPy on the stored series by the C16 oracle only (values, dtype, shape, error class).
 -/
 set_option linter.unusedSimpArgs false
 namespace Fsic.C16
